@@ -271,7 +271,7 @@ def run(tier, rep):
     shards = 6 if tier == "quick" else 15
     args = [{"shard": i, "tier": tier, "endpoint": eps[i % 3], "rulesets": 3 if tier == "quick" else 25, "requests": 240 if tier == "quick" else 1500,
              "distinct": 10, "threads": 8, "burst": 400 if tier == "quick" else 1200} for i in range(shards)]
-    for res in sandbox.run_many("vf.props.c11", "worker", args, workers=shards, timeout=1800):
+    for res in sandbox.run_many("vf.props.c11", "worker", args, workers=shards, timeout=1800 if tier == "quick" else 10800):
         rep.merge_worker(res)
     rep.assumptions += ["refusals of non-elevated WireServer/HostGAPlugin callers are denials too and are counted likewise (in every mode)",
                         "421 entries (unattributed connections) are kept apart from the 403 multiset"]
